@@ -1037,6 +1037,7 @@ char * SCPI_dtostre(double __val, char * __s, size_t __ssize, unsigned char __pr
     int sign = SCPIDEFINE_signbit(__val);
     char * s = buffer;
     int decpt;
+    int shift = 0;
     if (sign) {
         __val = -__val;
         s[0] = '-';
@@ -1072,6 +1073,8 @@ char * SCPI_dtostre(double __val, char * __s, size_t __ssize, unsigned char __pr
         memmove(s + decpt + 1, s, __prec + 1);
         memset(s, '0', decpt + 1);
         s[1] = '.';
+        /* the digits now start behind "0." and the inserted zeros */
+        shift = decpt;
         decpt = 0;
     } else {
         memmove(s + 2, s + 1, __prec + 1);
@@ -1079,7 +1082,7 @@ char * SCPI_dtostre(double __val, char * __s, size_t __ssize, unsigned char __pr
         decpt--;
     }
 
-    s = &s[__prec];
+    s = &s[__prec + shift];
     while (s[0] == '0') {
         s[0] = 0;
         s--;
